@@ -66,6 +66,9 @@ CheckMp(r) ==
       /\ Ck("C07", r, "C07.decode", r.dec_ok, r.ddiff)
       /\ Ck("C08", r, "C08.silent", ~r.none, <<>>)
       /\ Ck("C08", r, "C08.wellformed", HasImpl(r) => WfUpdateMp(r.impl, TRUE), <<>>)
+\* construct-only families (C08): whatever the encoder returns must pass the walker
+CheckEnc(r) ==
+   r.kind = "enc" => Ck("C08", r, "C08.wellformed", HasImpl(r) => WfUpdateMp(r.impl, TRUE), r.diff)
 \* UPDATEs constructed with add-path identifiers (C08 / C09)
 CheckAP(r) ==
    r.kind = "updap" =>
@@ -74,6 +77,6 @@ CheckAP(r) ==
       /\ Ck("C08", r, "C08.meaning", (HasImpl(r) /\ WfUpdateAP(r.impl, TRUE)) => NormUpdateAP(r.impl) = NormUpdateAP(r.ref), <<>>)
       /\ Ck("C09", r, "C09.decode", r.dec_ok, r.ddiff)
 Init == l = 1
-Next == l <= Len(Tr) /\ (IF Tr[l].kind = "mp" THEN CheckMp(Tr[l]) ELSE IF Tr[l].kind = "comm" THEN CheckComm(Tr[l]) ELSE IF Tr[l].kind = "updap" THEN CheckAP(Tr[l]) ELSE (CheckLine(Tr[l]) /\ CheckSess(Tr[l]))) /\ l' = l + 1
+Next == l <= Len(Tr) /\ (IF Tr[l].kind = "mp" THEN CheckMp(Tr[l]) ELSE IF Tr[l].kind = "enc" THEN CheckEnc(Tr[l]) ELSE IF Tr[l].kind = "comm" THEN CheckComm(Tr[l]) ELSE IF Tr[l].kind = "updap" THEN CheckAP(Tr[l]) ELSE (CheckLine(Tr[l]) /\ CheckSess(Tr[l]))) /\ l' = l + 1
 AllConsumed == TLCGet("stats").diameter - 1 = Len(Tr)
 =============================================================================
